@@ -22,6 +22,8 @@ RULE = (
     "container in {DataArray, Dataset(equal dims), Dataset(different dims), list[DA,DA], list[DA,DS]} x sample dims 1..3 x feature dims 1..3 "
     "x dimension order (all permutations up to 4 dims; identity/reverse/shuffle beyond) x index kind per dimension (int, unsorted int, str, "
     "descending datetime, descending float, MultiIndex on a sole sample/feature dim; full product up to 3 dims, one dim at a time beyond) "
+    "x list items that call their feature dims alike but carry other labels on them (same / reordered / subset / shifted-overlapping / disjoint; lat or lat+lon shared; "
+    "1-2 sample dims; int, float, str labels, thorough + unsorted, datetime; Preprocessor and EOF level) "
     "x non-index coords x internal names x preprocessing flags (x data with / without zero-variance features: a non-zero and a zero constant column per variable); "
     "non-trivial = matrix, data, component and score round trips all decoded cell by cell. "
     "Cross-set models fitted on X and Y with equally many samples but DIFFERENT sample labels (Y lagged by one step / disjoint): class in {MCA, CCA, RDA, CPCCA, MCARotator; "
@@ -125,6 +127,12 @@ def build_input(case):
         # v lacks the trailing feature dims
         v = build_da(dv, kinds, [dv.index(dims[i]) for i in ov], 10000, "none", "v")
         return xr.Dataset({"u": u, "v": v}), S
+    if case.get("grid") and c in ("list_da", "list_mixed"):
+        # the other item(s) call their feature dims like the first item does, but live on another grid
+        u = build_da(dims, kinds, order, 0, extra, "u")
+        d2 = S + list(case["shared"])
+        others = [regrid(build_da(d2, kinds, list(range(len(d2))), b, "none", nm), case, kinds) for nm, b in (("w", 20000),) + ((("b", 30000),) if c == "list_mixed" else ())]
+        return [u, others[0] if c == "list_da" else xr.Dataset({"a": others[0].rename("a"), "b": others[1]})], S
     if c == "list_da":
         u = build_da(dims, kinds, order, 0, extra, "u")
         k2 = {d: kinds[d] for d in S}
@@ -144,6 +152,24 @@ def build_input(case):
         b = build_da(S + ["x"], k2, list(range(len(S) + 1)), 30000, "none", "b")
         return [u, xr.Dataset({"a": a, "b": b})], S
     raise ValueError(c)
+
+
+GRIDS = ["same", "reordered", "subset", "overlap", "disjoint"]
+
+
+def regrid(da, case, kinds):
+    """labels of the shared feature dims relative to the first item's: same / same set stored in another element order /
+    a proper subset / shifted by one step (overlapping) / disjoint."""
+    g = case["grid"]
+    for d in case["shared"]:
+        n = da.sizes[d]
+        if g == "reordered":
+            da = da.isel({d: np.roll(np.arange(n), 1)})
+        elif g == "subset":
+            da = da.isel({d: slice(0, n - 1)})
+        elif g in ("overlap", "disjoint"):
+            da = da.assign_coords({d: cross_labels(kinds[d], n, d, "lag" if g == "overlap" else "disjoint")})
+    return da
 
 
 def _lab(v):
@@ -183,7 +209,7 @@ def cases(tier, seed):
     out = []
 
     def add(group, **kw):
-        c = dict(level="preprocessor", group=group, container="da", ns=1, nf=1, order=None, kinds=None, coords="none", names="default", flags=[False, False, False, False], item_order="same", const=False)
+        c = dict(level="preprocessor", group=group, container="da", ns=1, nf=1, order=None, kinds=None, coords="none", names="default", flags=[False, False, False, False], item_order="same", const=False, grid=None, shared=None)
         c.update(kw)
         nd = c["ns"] + c["nf"]
         if c["order"] is None:
@@ -228,6 +254,20 @@ def cases(tier, seed):
             for kind0 in ("int", "str", "datetime_desc"):
                 kk = [[d, kind0 if d == "time" else "int"] for d in SDIMS[:ns] + FDIMS[:nf]]
                 add("list_order", container="list_da", ns=ns, nf=nf, item_order=io, kinds=kk)
+    # A3: list items that share the NAME of their feature dims but not the labels (fields on different grids)
+    gvars = [(1, 1, ["lat"]), (1, 2, ["lat"]), (1, 2, ["lat", "lon"]), (2, 1, ["lat"]), (2, 2, ["lat", "lon"])]
+    gkinds = ["int", "float_desc", "str"] + (["unsorted", "datetime_desc"] if tier == "thorough" else [])
+    for ic, cont in enumerate(("list_da", "list_mixed")):
+        for iv, (ns, nf, shared) in enumerate(gvars):
+            for ig, grid in enumerate(GRIDS):
+                for ik, kind in enumerate(gkinds):
+                    if tier == "quick" and ik != (ic + iv + ig) % 3:
+                        continue  # quick: index kinds in turn
+                    kk = [[d, kind if d in shared else "int"] for d in SDIMS[:ns] + FDIMS[:nf]]
+                    o = list(range(ns + nf))[::-1]
+                    add("list_grid", container=cont, ns=ns, nf=nf, grid=grid, shared=shared, kinds=kk, order=o)
+                    if tier == "thorough" or iv in (2, 3):
+                        add("list_grid", level="model", container=cont, ns=ns, nf=nf, grid=grid, shared=shared, kinds=kk, order=o)
     # C: extra coordinates x internal names
     for cont in CONTAINERS:
         for ns, nf in ((1, 1), (1, 2), (2, 1), (2, 2)):
@@ -511,6 +551,8 @@ def run_case(case, seed):
         feats["several_sample_dims"] = case["ns"] > 1
     if case.get("const"):
         feats["const_feature"] = True
+    if case.get("grid"):
+        feats["grid"] = case["grid"]
     if case["level"] == "cross":
         feats = dict(container=case["container"], group=case["group"], mi=case["skind"] == "mi", several_sample_dims=case["ns"] > 1)
 
